@@ -10,7 +10,7 @@ use serde_json::{json, Value};
 
 pub static DEF: PropDef = PropDef {
     id: "C01",
-    rule: "random: expression ASTs (depth<=6, <=14 primaries over tests/actions/-prune/-quit/options) rendered with minimal and redundant parentheses and all operator spellings, on generated trees with 1-2 starting points; exhaustive: every token sequence up to the stated length over {-true,-false,A1,A2,-quit,!,-a,-o,',',(,)} that the reference recogniser accepts, on a fixed tree. Oracle: reference parse + evaluation over an independent walk; stdout, -fprint* files and exit status compared byte for byte. Non-trivial = >=2 operator kinds among ! -a -o , AND (a short-circuit skipped an action, or an action sits under a negation, or -quit fired before the last entry). Distinct = distinct case JSON.",
+    rule: "random: expression ASTs (depth<=6, <=14 primaries over tests/actions/-prune/-quit/options) rendered with minimal and redundant parentheses and all operator spellings, -name operands that look like operators or primaries ( ( ) ! , -o -a -print ; + {} ), on generated trees with 1-2 starting points; exhaustive: every token sequence up to the stated length over {-true,-false,A1,A2,-quit,!,-a,-o,',',(,)} that the reference recogniser accepts, on a fixed tree. Oracle: reference parse + evaluation over an independent walk; stdout, -fprint* files and exit status compared byte for byte. Non-trivial = >=2 operator kinds among ! -a -o , AND (a short-circuit skipped an action, or an action sits under a negation, or -quit fired before the last entry). Distinct = distinct case JSON.",
     assumptions: &[
         "-sorted is prepended so that the visit order is defined (it is an always-true primary and does not change the value of the expression)",
         "find runs in process through find_main (1 in 20 random cases also through the built binary); harness and library built with debug assertions and overflow checks",
@@ -51,6 +51,10 @@ fn gen_prim(g: &mut Gen, c: &mut GenCtx) -> Prim {
             let base = if c.names.is_empty() { "a".to_string() } else { g.pick(&c.names).clone() };
             let first: String = base.chars().take(1).collect();
             let last: String = base.chars().rev().take(1).collect();
+            // an operand that looks like an operator or a primary is still an operand
+            if g.chance(1, 8) {
+                return Prim::Name(g.pick(&["(", ")", "!", ",", "-o", "-a", "-not", "-print", "-prune", "-quit", ";", "+", "{}"]).to_string(), g.chance(1, 6));
+            }
             let pat = match g.below(6) {
                 0 => base,
                 1 => format!("{first}*"),
